@@ -270,6 +270,10 @@ type Loc struct {
 	Hits   int64
 }
 
+// table names given by the model (schema.Tabler / schema.TablerWithNamer)
+func (Loc) TableName() string               { return "loc_table" }
+func (Uid) TableName(n schema.Namer) string { return n.TableName("UidRow") }
+
 // ---- T13: the key is the field named ID, stored under another column name, no primaryKey tag ----
 type Uid struct {
 	ID   uint   `gorm:"column:uid"`
